@@ -56,6 +56,9 @@ CHECKS = {
  "C11": ("exploration", "proptest-generated handshake responses (4.1 and 3.20 layouts, random capability masks, arbitrary non-NUL user names, trailing bytes, sequence ids) x TLS configured or not x shim accepts or rejects x pipelined commands; oracle = reference greeting decoder (+ mysql_common::HandshakePacket) and the ordered callback log",
          "Generated search over the handshake domain the property lists; the greeting must be a well-formed protocol-10 greeting with the right capability bits, flushed before the first read; after_authentication must run exactly once, first, with the exact user bytes; a rejection must yield ERR 1045/28000, the shim's own error from run_on and no command callback even when commands are already pipelined.",
          "The SSL-requested-and-configured case is C18's."),
+ "C18": ("exploration", "proptest-generated TLS upgrades: a rustls ClientConnection embedded in the scripted transport x chunk schedules around the SSLRequest/ClientHello boundary x {TLS 1.2, 1.3} x client certificate or not x lock-step or pipelined conversations; oracle = rustls accepts every server byte after the greeting as TLS records, callback log (user name, DER chain) and a differential against the same conversation in plaintext",
+         "Generated search over all split points of the client stream around the SSL request (cut inside it, SSL request + k bytes of the ClientHello in one read, everything in one read, 1-byte reads) and arbitrary chunkings of the rest of the handshake; the decrypted replies must equal the plaintext run message for message, nothing may be sent in plaintext after the greeting, the client must never be left waiting, and a TLS request to a shim without configuration must fail before after_authentication.",
+         "rustls is the only TLS peer; key-exchange randomness does not influence case or verdict."),
  "C19": ("fault_enumeration", "proptest-generated conversations, each re-run with every fault point enumerated (EOF after k bytes, one-off / persistent error and zero-length write at every transport operation, shim error at every callback); oracle = Ok/Err classification, panic capture, prefix relation of callback logs",
          "For each generated conversation the fault space is enumerated exhaustively from its own fault-free operation trace (about 500 faulted runs per conversation, ~200000 per quick run): connection end is Ok exactly at command boundaries after the handshake, every transport fault yields Err (never Ok, never a panic) with no callback started after the fault, shim errors come back unchanged.",
          "Injected errors are of a kind std does not retry (not Interrupted); faults are injected in plaintext conversations."),
@@ -63,9 +66,7 @@ CHECKS = {
          "All strings up to length 4-5 over alphabets of command bytes and boundary values in four positions (as command, as handshake, unframed after/instead of the handshake) and as execute parameter blocks for four declared parameter counts; hundreds of thousands of mutated conversations; any panic is keyed by a (file, source-line text, message) signature so known sites and new ones are told apart.",
          "Never establishes absence; a wedge is detected as reads after end-of-stream exceeding a budget, not by a clock."),
 }
-NOT_YET = {
- "C18": "check under construction (TLS client embedded in the scripted transport); see DESIGN.md section 2, C18",
-}
+NOT_YET = {}
 
 def main():
     props = [json.loads(l) for l in open(os.path.join(HERE, "properties.jsonl"))]
